@@ -52,10 +52,10 @@ fn kv(o: Option<(&TKey, &TVal)>) -> Ints {
 }
 
 // ---------------------------------------------------------------- SegmentedCache
-pub struct SlruSubj {
-    pub c: SegmentedCache<TKey, TVal, VHasher, VHasher>,
+pub struct SlruSubj<A = VHasher, B = VHasher> {
+    pub c: SegmentedCache<TKey, TVal, A, B>,
 }
-impl Subject for SlruSubj {
+impl<A: std::hash::BuildHasher + Clone, B: std::hash::BuildHasher + Clone> Subject for SlruSubj<A, B> {
     fn apply(&mut self, op: &[i128]) -> Ints {
         if let Some(r) = trait_op(&mut self.c, op) {
             return r;
@@ -124,10 +124,10 @@ impl Subject for SlruSubj {
 use caches::Cache as _;
 
 // ---------------------------------------------------------------- TwoQueueCache
-pub struct TwoQSubj {
-    pub c: TwoQueueCache<TKey, TVal, VHasher, VHasher, VHasher>,
+pub struct TwoQSubj<A = VHasher, B = VHasher, C = VHasher> {
+    pub c: TwoQueueCache<TKey, TVal, A, B, C>,
 }
-impl Subject for TwoQSubj {
+impl<A: std::hash::BuildHasher, B: std::hash::BuildHasher, C: std::hash::BuildHasher> Subject for TwoQSubj<A, B, C> {
     fn apply(&mut self, op: &[i128]) -> Ints {
         if let Some(r) = trait_op(&mut self.c, op) {
             return r;
@@ -191,10 +191,12 @@ impl Subject for TwoQSubj {
 }
 
 // ---------------------------------------------------------------- AdaptiveCache
-pub struct ArcSubj {
-    pub c: AdaptiveCache<TKey, TVal, VHasher, VHasher, VHasher, VHasher>,
+pub struct ArcSubj<A = VHasher, B = VHasher, C = VHasher, D = VHasher> {
+    pub c: AdaptiveCache<TKey, TVal, A, B, C, D>,
 }
-impl Subject for ArcSubj {
+impl<A: std::hash::BuildHasher, B: std::hash::BuildHasher, C: std::hash::BuildHasher, D: std::hash::BuildHasher> Subject
+    for ArcSubj<A, B, C, D>
+{
     fn apply(&mut self, op: &[i128]) -> Ints {
         if let Some(r) = trait_op(&mut self.c, op) {
             return r;
